@@ -212,6 +212,19 @@ _add("C05", S+"partReceived", ["delivery-record-reaches-back-to-the-part", "know
 _add("C08", S+"partReceived", ["delivery-record-reaches-back-to-the-part"])
 for _p in ("C06", "C04"):
     _add(_p, S+"toWait")
+_add("C08", "(*payload.Bin).GetParts")
+_add("C08", B+"startSend", ["acknowledged-count-applied-before-parts-move", "forwards-acknowledged-head", "forward-needs-ack", "recovery-of-the-failed-payload", "changed-files-dropped"])
+_add("C13", "(*payload.Bin).EncodeHeader")
+_add("C18", "(*log.rollingFile).rotate")
+for _f in (S+"clean", S+"CleanNow"):
+    _add("C20", _f)
+for _f in ("(*queue.Tagged).addFile$1", "(*queue.Tagged).addFile$2"):
+    _add("C10", _f)
+    _add("C12", _f)
+_add("C11", "(*main.clientApp).init", ["every-tag-gets-a-chunk-limit"])
+_add("C12", "(*main.clientApp).init", ["every-tag-gets-a-chunk-limit"])
+_add("C12", "(*main.clientApp).init$3")
+_add("C14", "sts.InitPaths")
 # round 4: seeds that only the check of another property reported
 _add("C02", S+"partReceived", ["same-version-only", "known-file-answers-yes", "yes-needs-record-or-known-file"])
 _add("C04", "(*queue.sortedFile).getPrevName")
